@@ -181,9 +181,9 @@ def nat_index(x, key):
 
 
 def cases(rng, tier):
-    n = {"quick": 520, "thorough": 12000, "search": 3000}[tier]
+    n = {"quick": 1200, "thorough": 12000, "search": 3000}[tier]
     nbad = {"quick": 80, "thorough": 600, "search": 100}[tier]
-    ntool = {"quick": 60, "thorough": 800, "search": 200}[tier]
+    ntool = {"quick": 150, "thorough": 800, "search": 200}[tier]
     out = []
     for _ in range(n):
         N = rng.choice([1, 2, 2, 3, 3, 4])
@@ -211,7 +211,11 @@ def cases(rng, tier):
             if not ones:
                 c["op"] = "squeeze"
             else:
-                c["dim"] = rng.choice(ones)
+                # an int or a list of ints, each position given from the front or (negative) from the back
+                k = 1 if rng.random() < 0.6 else rng.randint(1, len(ones))
+                sel = sorted(rng.sample(ones, k))
+                sel = [d - N if rng.random() < 0.4 else d for d in sel]
+                c["dim"] = sel[0] if (k == 1 and rng.random() < 0.7) else sel
         if op == "unsqueeze":
             k = rng.randint(1, 2)
             c["dim"] = sorted(rng.sample(range(N + k), k))
@@ -320,7 +324,8 @@ def run_case(ctx, case):
     if op == "squeeze":
         res = safe(lambda: tn.squeeze(tt)); exp = np.squeeze(x)
     elif op == "squeeze_dim":
-        res = safe(lambda: tn.squeeze(tt, case["dim"])); exp = np.squeeze(x, axis=case["dim"])
+        dd = case["dim"]
+        res = safe(lambda: tn.squeeze(tt, dd)); exp = np.squeeze(x, axis=tuple(dd) if isinstance(dd, list) else dd)
     elif op == "unsqueeze":
         res = safe(lambda: tn.unsqueeze(tt, case["dim"]))
         exp = x
